@@ -254,7 +254,7 @@ theorem recompute_inv (value : Nat) (hops : List FeeHop) (res : Result)
 
 /-! ### the route checker -/
 
-theorem hopOk_iff (p : Params) (c : Chan) (amt : Nat) : hopOk p c amt = true ↔ HopOK p c amt := by
+theorem hopOk_iff (g : Graph) (p : Params) (c : Chan) (amt : Nat) : hopOk g p c amt = true ↔ HopOK g p c amt := by
   simp [hopOk, HopOK, and_assoc]
 
 theorem chainOk_iff (g : Graph) (p : Params) : ∀ (path : RPath) (src : Nat),
